@@ -21,6 +21,7 @@
 #define atoi vc_atoi
 #include "compat/libc/stdlib/atol.c"
 #include "igris/util/printf_impl.c"
+#include "c06_pform.h"
 
 #define CONV_d 'd'
 #define CONV_i 'i'
